@@ -15,43 +15,71 @@ from vlib.runner import Ob
 
 STRICT = os.environ.get("VERIF_C16_STRICT") == "1"
 
-NOPS, LMAX = 4, 6
-RMAX = NOPS * LMAX
-
 IO_STUBS = ["fwrite/clearerr/open/write/close/stat/unlink = models/c16_io.c (byte log, fault plan: short count, -1, "
             "0-progress writes, EINTR on open, close failure)",
             "vsnprintf/snprintf/strerror/dgettext (error message text) = empty string (CBMC only)",
             "models/c16_stubs.c: export module classes, vbi_init, _vbi_strndup_iconv (unreached)"]
 
+# kinds that append n bytes: n == 0: write/puts("")/puts(NULL)/flush/direct (5), n == 1: write/putc/puts/direct (4), else write/puts/direct (3)
+def _nk(n):
+    return 5 if n == 0 else 4 if n == 1 else 3
+
+
+def _kind_vectors(lens, full):
+    """KINDS = 4 decimal digits, digit i = index into the kinds that append lens[i] bytes"""
+    n = [_nk(l) for l in lens]
+    if full:
+        return [a * 1000 + b * 100 + c * 10 + d for a in range(n[0]) for b in range(n[1]) for c in range(n[2]) for d in range(n[3])]
+    # covering subset: every kind at every position, neighbours varied
+    out = []
+    for k in range(10):
+        v = (k % n[0]) * 1000 + ((k + k // n[0]) % n[1]) * 100 + ((2 * k + 1) % n[2]) * 10 + ((k + 2) % n[3])
+        if v not in out:
+            out.append(v)
+    return out
+
+
+def _lens(l):
+    return dict(L0=l[0], L1=l[1], L2=l[2], L3=l[3])
+
 
 def write_layer():
-    common = dict(harness="h_c16.c", units=["src/misc.c"], models=["c16_io.c", "c16_stubs.c"],
-                  defines={"NOPS": NOPS, "LMAX": LMAX}, unwind=RMAX + 2,
-                  unwindset={"c16_append.0": 66, "write_fd.0": 13, "xopen.0": 12, "xclose.0": 12},
-                  stubs=IO_STUBS + ["realloc/malloc/free = CBMC built-in models (fresh object per allocation, --no-malloc-may-fail)"],
+    common = dict(harness="h_c16.c", units=["src/misc.c"], models=["c16_io.c", "c16_stubs.c"], unwind=12,
+                  unwindset={"c16_append.0": 66, "write_fd.0": 13, "xopen.0": 12, "xclose.0": 12, "strlen.0": 8, "strcpy.0": 4, "strdup.0": 4},
+                  stubs=IO_STUBS + ["realloc/malloc/free = CBMC built-in models (fresh exact-size object per allocation, --no-malloc-may-fail)"],
                   vin_size=64)
-    ops = ("arbitrary exporter = %d operations, each symbolically one of vbi_export_write(0..%d symbolic bytes), putc, puts(string <= %d / NULL), "
-           "flush, grow-then-store-directly(0..%d bytes); symbolic return value" % (NOPS, LMAX, LMAX, LMAX))
-    full = [dict(BUFSZ=b) for b in range(0, RMAX + 2)]
-    quick = [dict(BUFSZ=b) for b in (0, 1, 2, 5, 6, 7, 12, 13, 23, 24, 25)]
+    LA, LB = (2, 1, 0, 3), (0, 3, 1, 1)
+    ops = ("exporter = 4 operations appending (L0,L1,L2,L3) bytes; byte counts and operation kinds ENUMERATED on the grid (kinds: vbi_export_write, putc, "
+           "puts(string/NULL), flush, grow-then-store-directly - every kind that appends that many bytes), byte contents and the exporter's return value symbolic. "
+           "Symbolic lengths/kinds were measured infeasible (symbolic-size realloc/memcpy: 10 GB, no result in 140 s; symbolic kinds: no result in 290 s)")
+    g_full, g_quick = [], []
+    for lens, full in ((LA, True), (LB, False)):
+        need = sum(lens)
+        for kv in _kind_vectors(lens, full):
+            for b in range(0, need + 2):
+                g_full.append(dict(_lens(lens), KINDS=kv, BUFSZ=b))
+    for kv in _kind_vectors(LA, False)[:8]:
+        for b in (0, 2, 3, 5, 6, 7):
+            g_quick.append(dict(_lens(LA), KINDS=kv, BUFSZ=b))
+    k_full = [dict(_lens(LA), KINDS=kv) for kv in _kind_vectors(LA, True)] + [dict(_lens(LB), KINDS=kv) for kv in _kind_vectors(LB, False)]
+    k_quick = [dict(_lens(LA), KINDS=kv) for kv in _kind_vectors(LA, False)]
     return [
         Ob("write_mem_alloc", func="h_c16_mem",
-           desc="vbi_export_mem into an exact-size object of BUFSZ bytes, then vbi_export_alloc, same arbitrary exporter: mem returns the total size needed, "
+           desc="vbi_export_mem into an exact-size object of BUFSZ bytes, then vbi_export_alloc, same exporter: mem returns the total size needed, "
                 "the first min(BUFSZ,total) bytes equal the reference stream, buffer[BUFSZ] is never accessed (object bounds), alloc returns exactly "
                 "the reference stream; export object left clean; exporter failure -> -1 / NULL with outputs untouched",
            encodes=["vbi_export_mem", "vbi_export_alloc", "_vbi_export_grow_buffer_space", "vbi_export_write", "vbi_export_putc",
                     "vbi_export_puts", "vbi_export_flush", "_vbi_grow_vector_capacity"],
-           bounds=ops + "; total 0..%d symbolic; BUFSZ enumerated 0..%d (quick: 11 values) - every relation of BUFSZ to the size needed occurs "
-                        "in every instance" % (RMAX, RMAX + 1),
-           outside="vbi_export_printf/vprintf, puts_iconv; allocation failure; outputs >= 64 KiB (growth policy switch)",
-           grid=full, quick_grid=quick, reach=["end", "too_small", "one_short"], timeout=300, mem_gb=3, **common),
+           bounds=ops + "; BUFSZ enumerated 0..needed+1 for byte counts (2,1,0,3) x all 180 kind vectors and (0,3,1,1) x 10 kind vectors (quick: 8 kind vectors x 6 sizes)",
+           outside="vbi_export_printf/vprintf, puts_iconv; allocation failure; outputs >= 64 KiB (growth policy switch); other byte-count vectors",
+           grid=g_full, quick_grid=g_quick, reach=["end"], timeout=120, mem_gb=1, **common),
         Ob("write_stdio", func="h_c16_stdio",
-           desc="vbi_export_stdio with the same arbitrary exporter through the fwrite model: success <=> exporter ok and no short write; on success the "
+           desc="vbi_export_stdio with the same exporter through the fwrite model: success <=> exporter ok and no short write; on success the "
                 "stream holds exactly the reference bytes in order; on failure a prefix of them; export object left clean",
            encodes=["vbi_export_stdio", "write_fp", "fast_flush", "vbi_export_flush", "vbi_export_write", "vbi_export_putc", "vbi_export_puts",
                     "_vbi_export_grow_buffer_space"],
-           bounds=ops + "; one injected fwrite fault at a symbolic call", outside="writes >= 4096 bytes (see write_big)",
-           reach=["end", "success", "io_fault"], timeout=300, mem_gb=3, **common),
+           bounds=ops + "; one injected fwrite fault at a symbolic call (short count symbolic)", outside="writes >= 4096 bytes (see write_big)",
+           grid=k_full, quick_grid=k_quick, reach=["end", "success", "io_fault"], timeout=120, mem_gb=1, **common),
         Ob("write_file", func="h_c16_file",
            desc="vbi_export_file through the open/write/close/stat/unlink model: success <=> open ok, exporter ok, no write error (0-progress writes are "
                 "retried up to 10 times), close ok; then the file holds exactly the reference bytes and is kept; otherwise the descriptor is closed exactly "
@@ -60,14 +88,81 @@ def write_layer():
                     "vbi_export_puts", "_vbi_export_grow_buffer_space"],
            bounds=ops + "; fault plan symbolic (EINTR x 0..11 on open, EACCES, one write fault of kind short/-1/0-progress x 0..12, close failure)",
            outside="EINTR on close; writes >= 4096 bytes (see write_big)",
-           reach=["end", "success", "io_fault", "open_failed", "retried"], timeout=300, mem_gb=3, **common),
+           grid=k_full, quick_grid=k_quick, reach=["end", "success", "io_fault", "open_failed"], timeout=120, mem_gb=1, **common),
         Ob("write_big", func="h_c16_big",
            desc="unbuffered path: write(2 bytes), write(4096 bytes), write(2 bytes) to the stdio or file target (symbolic choice): the buffered 2 bytes reach "
                 "the target first, then the block straight from the source, then the tail - 4100 bytes in order",
            encodes=["vbi_export_write", "fast_write", "fast_flush", "vbi_export_stdio", "vbi_export_file", "write_fp", "write_fd"],
-           bounds="one fixed operation list; block content symbolic at its first two and last byte", reach=["end"], timeout=300, mem_gb=3, **common),
+           bounds="one fixed operation list; block content symbolic at its first two and last byte", reach=["end"], timeout=300, mem_gb=2, **common),
+    ]
+
+
+def text_output():
+    def us(pc, pr):
+        return {"vbi_print_page_region.0": pc + 1, "vbi_print_page_region.1": pc + 1, "vbi_print_page_region.2": pc + 1,
+                "vbi_print_page_region.3": pr + 1, "strcmp.0": 12, "iconv.0": 4, "iconv.1": 3, "iconv_open.0": 5}
+    common = dict(harness="h_c16_txt.c", units=["src/export.c", "src/misc.c"], models=["c16_iconv.c", "c16_stubs.c"], unwind=24, vin_size=64,
+                  stubs=["iconv_open/iconv/iconv_close = models/c16_iconv.c: UCS-2 (byte order symbolic) -> ASCII / ISO-8859-1 / UTF-8, E2BIG iff the next character "
+                         "does not fit (nothing written), EILSEQ or (symbolic mode) '@' substitution for unrepresentable code points, never writes beyond *outbytesleft; "
+                         "ISO-8859-1 -> UCS-2 for vbi_ucs2be(); other charsets: EINVAL",
+                         "models/c16_stubs.c: export module classes (unreached)"])
+    known = {} if STRICT else {"KNOWN_C16_E2BIG_AS_SPACE": 1}
+    t_full = [dict(CS=2, TSIZE=t) for t in range(0, 9)] + [dict(CS=3, TSIZE=t) for t in range(0, 21)] + [dict(CS=1, TSIZE=4), dict(CS=4, TSIZE=8)]
+    t_quick = [dict(CS=2, TSIZE=t) for t in (0, 1, 4, 7, 8)] + [dict(CS=3, TSIZE=t) for t in (0, 3, 8, 13, 19)] + [dict(CS=4, TSIZE=8)]
+    return [
+        Ob("text_table", func="h_c16_txt_table", defines=dict(C16_HAVE_TEXT=1, PC=3, PR=2, **known), unwindset=us(3, 2),
+           desc="vbi_print_page_region, table mode, on a 3x2 page of fully symbolic cells, region symbolic (documented width/height >= 1), buffer = exact-size object of "
+                "TSIZE bytes: result == the region's characters row by row in the target charset (cells > DOUBLE_SIZE and unrepresentable code points -> space), "
+                "rows separated by LF, return value == number of bytes == bytes written <= TSIZE; region outside the page or unknown charset -> 0; "
+                "buffer too small -> 0 (STRICT only, see KNOWN_C16_E2BIG_AS_SPACE); iconv descriptor closed on every path; buf[TSIZE] never accessed",
+           encodes=["vbi_print_page_region", "print_unicode", "vbi_ucs2be"],
+           bounds="page 3 columns x 2 rows; TSIZE enumerated 0..needed+1 (needed symbolic per instance: <= 7 ISO-8859-1, <= 19 UTF-8); charsets of the model",
+           assumes=[] if STRICT else ["KNOWN_C16_E2BIG_AS_SPACE (known finding): with a too small buffer and a multi-byte charset the function may return success with "
+                                      "characters replaced by spaces; the assertion 'too small => 0' is dropped, 'length <= TSIZE' and the object bounds stay"],
+           outside="real iconv and its charsets; rtl (ignored by the code); pages wider than 3 columns",
+           grid=t_full, quick_grid=t_quick, reach=["end"], timeout=300, mem_gb=3, **common),
+        Ob("text_flow", func="h_c16_txt_flow", defines=dict(C16_HAVE_TEXT=1, CS=2),
+           desc="vbi_print_page_region, flow mode (table == FALSE), ISO-8859-1: return value <= TSIZE, buf[TSIZE] never accessed, every output character is a space "
+                "or the character of a scanned cell, in scan order (subsequence); invalid region -> 0; iconv descriptor closed",
+           encodes=["vbi_print_page_region", "print_unicode", "vbi_ucs2be"],
+           bounds="page PC x PR = 2x2 (quick) and 3x2 cells, fully symbolic; TSIZE on the grid",
+           outside="exact flow-mode layout (space collapsing rules) is not specified by the property and not asserted",
+           grid=[dict(PC=2, PR=2, TSIZE=t) for t in range(0, 6)] + [dict(PC=3, PR=2, TSIZE=t) for t in (0, 2, 5, 7, 8)],
+           quick_grid=[dict(PC=2, PR=2, TSIZE=t) for t in (0, 2, 4, 5)],
+           unwindset=us(3, 2), reach=["end", "printed"], timeout=600, mem_gb=4, **common),
+    ]
+
+
+def rendering():
+    known = {} if STRICT else {"KNOWN_C16_CUT_WIDE": 1}
+    common = dict(harness="h_c16_gfx.c", func="h_c16_gfx", units=["src/export.c", "src/misc.c"], models=["c16_stubs.c"], unwind=3400, vin_size=320,
+                  stubs=["font bitmaps wstfont2/ccfont2 and the DRCS bitmap: arbitrary contents (havoc'ed; native replay uses the real tables)",
+                         "exp-gfx.c compiled without HAVE_LIBPNG (PNG export outside the claim)", "models/c16_stubs.c: export module classes (unreached)"],
+                  assumes=["page invariants by construction: colour indices < 40, vbi_size <= DOUBLE_SIZE2, DRCS code points U+F000..F7FF with glyph < 48, "
+                           "drcs[] NULL or 48x60 bytes, drcs_clut NULL or 64 entries < 40, drcs_clut_offs <= 48; region inside the 3x2 page (caller's duty: "
+                           "the functions do not validate)"] +
+                          ([] if STRICT else ["KNOWN_C16_CUT_WIDE (known finding): the last cell of a region row is not DOUBLE_WIDTH/DOUBLE_SIZE/DOUBLE_SIZE2"]))
+    vt_full = [dict(CC=0, RW=w, RH=h, FMT=f, RSX=x) for (w, h) in ((1, 1), (2, 1), (1, 2)) for f in (32, 5) for x in (0, 1, 5, -1)] + \
+              [dict(CC=0, RW=1, RH=1, FMT=1, RSX=0), dict(CC=0, RW=2, RH=1, FMT=1, RSX=3)]
+    vt_quick = [dict(CC=0, RW=1, RH=1, FMT=32, RSX=0), dict(CC=0, RW=1, RH=1, FMT=5, RSX=1), dict(CC=0, RW=2, RH=1, FMT=32, RSX=4),
+                dict(CC=0, RW=2, RH=1, FMT=5, RSX=0), dict(CC=0, RW=1, RH=2, FMT=5, RSX=-1), dict(CC=0, RW=1, RH=1, FMT=1, RSX=0)]
+    cc_full = [dict(CC=1, RW=w, RH=1, FMT=f, RSX=x) for w in (1, 2) for f in (32, 5) for x in (0, 3, -1)] + [dict(CC=1, RW=1, RH=1, FMT=1, RSX=0)]
+    cc_quick = [dict(CC=1, RW=1, RH=1, FMT=32, RSX=0), dict(CC=1, RW=2, RH=1, FMT=5, RSX=3), dict(CC=1, RW=1, RH=1, FMT=1, RSX=0)]
+    text = ("into a canvas that is an exact-size object of the documented size rowstride x rows x cell height: every access inside canvas/page/font/pen objects, "
+            "guard bytes between the pixel rows of the rectangle keep their (symbolic) fill value, unsupported pixel format (YUV420) leaves the canvas untouched, "
+            "1x1 region with an ordinary character: every pixel is one of the cell's two colours")
+    return [
+        Ob("draw_vt_region", desc="vbi_draw_vt_page_region, RW x RH cells at a symbolic position of a 3x2 page, cells/colour map/DRCS clut/reveal/flash symbolic, " + text,
+           encodes=["vbi_draw_vt_page_region", "draw_char", "draw_drcs", "draw_blank", "unicode_wstfont2"], defines=dict(C16_HAVE_GFX=1, **known),
+           bounds="regions 1x1, 2x1, 1x2; pixel formats RGBA32_LE, PAL8, YUV420; rowstride = rectangle width + {0,1,4,5} bytes or -1 (page width)",
+           outside="'same pixels as the full-page rendering' (only pen colours per cell are checked); glyph shapes; regions larger than 2 cells",
+           grid=vt_full, quick_grid=vt_quick, reach=["end"], timeout=600, mem_gb=4, **common),
+        Ob("draw_cc_region", desc="vbi_draw_cc_page_region, RW x 1 cells at a symbolic position of a 3x2 page, cells and colour map symbolic, " + text,
+           encodes=["vbi_draw_cc_page_region", "draw_char", "unicode_ccfont2"], defines=dict(C16_HAVE_GFX=1),
+           bounds="regions 1x1, 2x1 (16x26 pixel cells); pixel formats RGBA32_LE, PAL8, YUV420; rowstride = rectangle width + {0,3} bytes or -1",
+           outside="glyph shapes; larger regions", grid=cc_full, quick_grid=cc_quick, reach=["end"], timeout=600, mem_gb=4, **common),
     ]
 
 
 def obligations(tier, seed):
-    return write_layer()
+    return write_layer() + text_output() + rendering()
